@@ -178,13 +178,39 @@ def find_macro(text, name, arg_re):
     raise ExtractError("macro %s! matching /%s/ not found" % (name, arg_re))
 
 
-def find_struct(text, name):
+def find_struct(text, name, with_attrs=True):
+    """struct or enum definition (brace, tuple or unit form), optionally with the attribute lines above it"""
     b = blank(text)
-    m = re.search(r"(?:pub[ \t]+)?struct[ \t]+%s\b" % re.escape(name), b)
+    m = re.search(r"(?:pub[ \t]+)?(?:struct|enum)[ \t]+%s\b" % re.escape(name), b)
     if not m:
-        raise ExtractError("struct %s not found" % name)
-    o = find_body_open(b, m.end())
-    return m.start(), match_close(b, o) + 1
+        raise ExtractError("struct/enum %s not found" % name)
+    j = m.end()
+    while j < len(b) and b[j] not in "{(;":
+        j += 1
+    if j >= len(b):
+        raise ExtractError("struct %s: no body" % name)
+    if b[j] == "{":
+        end = match_close(b, j) + 1
+    elif b[j] == "(":
+        c = match_close(b, j)
+        end = b.index(";", c) + 1
+    else:
+        end = j + 1
+    start = m.start()
+    if with_attrs:
+        # walk back over attribute lines directly above
+        while True:
+            ls = text.rfind("\n", 0, start) + 1 if start > 0 else 0
+            prev_end = ls - 1
+            if prev_end <= 0:
+                break
+            pls = text.rfind("\n", 0, prev_end) + 1
+            line = text[pls:prev_end]
+            if line.strip().startswith("#["):
+                start = pls
+            else:
+                break
+    return start, end
 
 
 def line_of(text, off):
